@@ -43,6 +43,16 @@ func scratch() string {
 	return os.TempDir()
 }
 
+// writeWhole replaces the file's content in one step (new file renamed over the path). The consumer re-reads the
+// file on EVERY event, the barrier's second no-op event included, and that last read is still in progress when the
+// harness goes on: with a plain os.WriteFile (truncate, then write) it could see the empty file in between and
+// clear the rules - a torn read made by the harness, not an event sequence of the alphabet.
+func writeWhole(path string, content []byte) {
+	tmp := path + ".w"
+	_ = os.WriteFile(tmp, content, 0o644)
+	_ = os.Rename(tmp, path)
+}
+
 func barrier(w *vfs.Watcher, path string) {
 	// two no-op events: when the second has been received the first has been processed completely
 	w.VerifInject(vfs.Event{Name: path, Op: vfs.Chmod})
@@ -65,7 +75,7 @@ func runFileSeq(root string, seqOps []int) string {
 	defer os.RemoveAll(dir)
 	path := filepath.Join(dir, "rules.json")
 	content := m.P1
-	_ = os.WriteFile(path, []byte(content), 0o644)
+	writeWhole(path, []byte(content))
 	// two handlers of different wire formats on the one datasource: the first cannot decode what the file holds
 	// (it reports a conversion error for every payload); the second, the flow handler, is the one observed
 	other := datasource.NewDefaultPropertyHandler(
@@ -98,23 +108,23 @@ func runFileSeq(root string, seqOps []int) string {
 		switch name {
 		case "write-A":
 			content = m.P1
-			_ = os.WriteFile(path, []byte(content), 0o644)
+			writeWhole(path, []byte(content))
 			w.VerifInject(vfs.Event{Name: path, Op: vfs.Write})
 		case "write-B":
 			content = m.P2
-			_ = os.WriteFile(path, []byte(content), 0o644)
+			writeWhole(path, []byte(content))
 			w.VerifInject(vfs.Event{Name: path, Op: vfs.Write})
 		case "write-big":
 			content = bigPayload
-			_ = os.WriteFile(path, []byte(content), 0o644)
+			writeWhole(path, []byte(content))
 			w.VerifInject(vfs.Event{Name: path, Op: vfs.Write})
 		case "write-garbage":
 			content = `[{"id":"f1","resou`
-			_ = os.WriteFile(path, []byte(content), 0o644)
+			writeWhole(path, []byte(content))
 			w.VerifInject(vfs.Event{Name: path, Op: vfs.Write})
 		case "truncate":
 			content = ""
-			_ = os.WriteFile(path, nil, 0o644)
+			writeWhole(path, nil)
 			w.VerifInject(vfs.Event{Name: path, Op: vfs.Write})
 		case "chmod":
 			w.VerifInject(vfs.Event{Name: path, Op: vfs.Chmod})
